@@ -34,6 +34,9 @@ def cases(tier, seed):
         ksel = R.choice(["space", "letter", "list"])
         entry = R.choice(["load", "load", "simple", "args", "args"])
         out.append(dict(nf=nf, hsel=hsel, ksel=ksel, entry=entry, seed=R.randrange(1 << 30), repeat=(i % 4 == 3)))
+    # a selection that one of the files cannot honour (it has fewer HDUs): an error, never a silent substitute
+    for i in range(8 if tier == "quick" else 80):
+        out.append(dict(nf=R.choice([2, 3, 5]), hsel="beyond", ksel="space", entry=["simple", "load", "args", "simple"][i % 4], seed=R.randrange(1 << 30)))
     for i in range(6 if tier == "quick" else 60):
         out.append(dict(nf=R.choice([1, 2, 3]), hsel=R.choice(["scalar", "list"]) if i % 2 else "list", ksel=R.choice(["space", "letter"]), entry="tile_fits" if i % 2 == 0 else "cli_multi_tan", seed=R.randrange(1 << 30)))
     return out
@@ -43,7 +46,28 @@ def shape_of(f, h):
     return (40 + 6 * f + h, 50 + 3 * h + 5 * f)
 
 
-def make_files(d, nf, R):
+def _cube_header(h2, order, key):
+    """3-axis header from a 2-axis celestial one: `order` names what FITS axes 1..3 are"""
+    from astropy.io import fits
+
+    ax = {name: i + 1 for i, name in enumerate(order)}
+    h = fits.Header()
+    for card in h2.cards:
+        k = card.keyword
+        base, suf = (k[:-1], k[-1]) if (key and k.endswith(key)) else (k, "")
+        if base[-1] in "12" and base[:-1] in ("CTYPE", "CRVAL", "CRPIX", "CDELT", "CUNIT"):
+            n = ax["ra"] if base[-1] == "1" else ax["dec"]
+            h[base[:-1] + str(n) + suf] = card.value
+    sp = ax["spec"]
+    h["CTYPE%d%s" % (sp, key)] = "FREQ"
+    h["CRVAL%d%s" % (sp, key)] = 1.4e9
+    h["CRPIX%d%s" % (sp, key)] = 1.0
+    h["CDELT%d%s" % (sp, key)] = 1.0e6
+    h["CUNIT%d%s" % (sp, key)] = "Hz"
+    return h
+
+
+def make_files(d, nf, R, cubes=False):
     """returns (paths, layout) with layout[f] = dict(image_hdus=[indices], first_image=index)"""
     from astropy.io import fits
     from astropy.table import Table
@@ -82,7 +106,18 @@ def make_files(d, nf, R):
                 for ki, key in enumerate(KEYS):
                     kk = key.strip()
                     hdr.update(fitsgen.tan_header(1000 * f + 10 * idx + ki + 0.5, 7.0 + ki, key=kk, bottoms_up=bool(bu)))
-                if idx > 0 and R.random() < 0.3:
+                if cubes and R.random() < 0.25:
+                    # a data cube: celestial axes first (the usual layout), spectral axis first, or a position-velocity cube
+                    order = R.choice([("ra", "dec", "spec"), ("spec", "ra", "dec"), ("ra", "spec", "dec")])
+                    nsp = R.choice([1, 3, 5])
+                    lens = dict(ra=sh[1], dec=sh[0], spec=nsp)
+                    data = np.full(tuple(lens[a] for a in reversed(order)), float(100 * f + idx), np.float32)
+                    h3 = fits.Header()
+                    for key in KEYS:
+                        kk = key.strip()
+                        h3.update(_cube_header(fits.Header([c for c in hdr.cards if (c.keyword.endswith(kk) if kk else c.keyword[-1].isdigit())]), order, kk))
+                    h = fits.PrimaryHDU(data, header=h3) if idx == 0 else fits.ImageHDU(data, header=h3)
+                elif idx > 0 and R.random() < 0.3:
                     # a tile-compressed image extension (fpack): an image HDU like any other (lossless GZIP for float data)
                     h = fits.CompImageHDU(data, header=hdr, compression_type="GZIP_1", quantize_level=0)
                 else:
@@ -121,7 +156,7 @@ def run_case(spec, workdir):
     R = random.Random(spec["seed"])
     d = os.path.join(workdir, "in")
     os.makedirs(d)
-    paths, layout = make_files(d, spec["nf"], R)
+    paths, layout = make_files(d, spec["nf"], R, cubes=(spec["entry"] in ("load", "simple", "args") and spec["seed"] % 3 == 0))
     if spec.get("repeat") and spec["entry"] in ("load", "simple", "args"):
         # the same file listed more than once (e.g. two HDUs of one file): the selection is per list position
         k = R.randrange(len(paths))
@@ -129,6 +164,29 @@ def run_case(spec, workdir):
         layout = [dict(layout[int(os.path.basename(p)[1:-5])], file=int(os.path.basename(p)[1:-5])) for p in paths]
     nf = len(paths)
     fidx = [int(os.path.basename(p)[1:-5]) for p in paths]
+    if spec["hsel"] == "beyond":
+        short = min(range(nf), key=lambda i: layout[i]["n"])
+        bad = layout[short]["n"] + R.choice([0, 0, 1])  # one past the end of the shortest file (may exist in longer ones)
+        how = R.choice(["scalar", "list"])
+        sel = bad if how == "scalar" else [bad if i == short else layout[i]["first_image"] for i in range(nf)]
+        try:
+            if spec["entry"] == "simple":
+                coll = collection.SimpleFitsCollection(paths, hdu_index=sel)
+            elif spec["entry"] == "load":
+                coll = collection.load(paths, hdu_index=sel)
+            else:
+                ns = argparse.Namespace(hdu_index=(str(sel) if isinstance(sel, int) else ",".join(map(str, sel))), wcs_key=None, blankval=None)
+                coll = collection.CollectionLoader.create_from_args(ns).load_paths(paths)
+            got = [identify(x, False)[:2] for x in coll.descriptions()]
+            list(coll.images())
+            reported = False
+        except Exception:
+            reported = True
+        res = dict(counters={"selections_beyond_a_file": 1, "entry_" + spec["entry"]: 1}, nontrivial=True, sample=dict(spec=spec, selection=sel, hdus_per_file=[l["n"] for l in layout]))
+        if not reported:
+            res.update(status="violation", key="wrong-hdu-or-wcs:selection-beyond-file-ignored",
+                       detail="HDU selection %s: file %d has only %d HDUs, yet the collection loaded without an error and contributed (file, hdu) = %s" % (sel, short, layout[short]["n"], got))
+        return res
     # selections valid for the layout
     common = sorted(set.intersection(*[set(l["image_hdus"]) for l in layout]))
     if spec["hsel"] == "none":
